@@ -103,6 +103,16 @@ def verbatimEnvWith (pats : List Nat × List Nat) (input : List Nat) : VerbRes :
 def verbatimEnv (begun : Bool) (esc bg eg : Nat) (name input : List Nat) : VerbRes :=
   verbatimEnvWith (patterns begun esc bg eg name) input
 
+/-- `begin.invoke` (Base/LaTeX/Environments.py): `context.currenvir = name`, the name *written* in `\begin{…}` — not the
+    class's own name (`obj.nodeName`), which differs when the environment is used under a `\let` alias
+    (`\let\code\verbatim \let\endcode\endverbatim … \begin{code}`).  `VerbatimEnvironment.invoke` takes the name of
+    its end marker from `currenvir`. -/
+def currenvir (written _className : List Nat) : List Nat := written
+
+/-- `\begin{written}` resolved to a verbatim class named `className`, followed by `input` -/
+def verbatimBegun (esc bg eg : Nat) (written className input : List Nat) : VerbRes :=
+  verbatimEnv true esc bg eg (currenvir written className) input
+
 def verbatimEnvAsIs (begun : Bool) (esc bg eg : Nat) (name input : List Nat) : VerbRes :=
   verbatimEnvWith (patternsAsIs begun esc bg eg name) input
 
